@@ -399,4 +399,27 @@ theorem wPair_agree (main : Bytes) (fallbacks sup : List Bytes) (split : Nat)
           exact wPairLoop_rounds sup split rest r _ _ _ (by simp; omega) rfl rfl rfl
             (fun x hx => hall x (by rw [hfbs]; exact List.mem_cons_of_mem _ hx))
 
+/-! ### `ProtocolSet::new` + `report_substream_open` -/
+
+theorem lookup_map_const (n m : Bytes) (fbs : List Bytes) :
+    (fbs.map fun f => (f, m)).lookup n = if n ∈ fbs then some m else none := by
+  induction fbs with
+  | nil => simp
+  | cons f fbs ih =>
+    simp only [List.map_cons, List.lookup_cons, ih]
+    by_cases h : n = f
+    · subst h; simp
+    · have : (n == f) = false := by simpa using h
+      simp [this, h]
+
+theorem lookup_build (installed : List (Bytes × List Bytes)) (n : Bytes) :
+    (buildFallbackNames installed).lookup n = (installed.find? (fun e => n ∈ e.2)).map (·.1) := by
+  induction installed with
+  | nil => simp [buildFallbackNames]
+  | cons e rest ih =>
+    have : buildFallbackNames (e :: rest) = (e.2.map fun f => (f, e.1)) ++ buildFallbackNames rest := by
+      simp [buildFallbackNames]
+    rw [this, List.lookup_append, lookup_map_const, ih]
+    by_cases h : n ∈ e.2 <;> simp [h]
+
 end Litep2pVerif.Mss
